@@ -49,10 +49,10 @@ StructOrUnionDeclarationSymbol::Fields StructOrUnionDeclarationSymbol::fields() 
     std::transform(membDecls_.begin(),
                    membDecls_.end(),
                    std::back_inserter(fldDecls),
-                   [] (const MemberDeclarationSymbol* membDecl) {
+                   [] (const MemberDeclarationSymbol* membDecl) -> const FieldDeclarationSymbol* {
                        PSY_ASSERT_2(
                            membDecl->kind() == SymbolKind::FieldDeclaration,
-                           continue);
+                           return nullptr);
                        return membDecl->asFieldDeclaration();
                    });
     return fldDecls;
